@@ -4,20 +4,25 @@ import (
 	"encoding/json"
 	"fmt"
 	"math/big"
+	"net/url"
 	"os"
 	"path/filepath"
+	"reflect"
 	"runtime"
 	"strings"
 	"sync"
+	"time"
 
 	"github.com/kstenerud/go-concise-encoding/builder"
 	"github.com/kstenerud/go-concise-encoding/ce"
 	"github.com/kstenerud/go-concise-encoding/configuration"
 	"github.com/kstenerud/go-concise-encoding/iterator"
 	"github.com/kstenerud/go-concise-encoding/rules"
+	"github.com/kstenerud/go-concise-encoding/types"
 	"verif/harness/internal/codec"
 	"verif/harness/internal/ev"
 	"verif/harness/internal/fx"
+	"verif/harness/internal/gen"
 	"verif/harness/internal/sched"
 )
 
@@ -289,6 +294,23 @@ func c17RaceRun(c *fx.Ctx) {
 	}
 }
 
+func mustParseURL(s string) *url.URL {
+	u, err := url.Parse(s)
+	if err != nil {
+		panic(err)
+	}
+	return u
+}
+
+func safeMarshal(m ce.Marshaler, v interface{}) (d []byte, err error) {
+	defer func() {
+		if x := recover(); x != nil {
+			err = fmt.Errorf("panic: %v", x)
+		}
+	}()
+	return m.MarshalToDocument(v)
+}
+
 func c17SeparateInstances(c *fx.Ctx, procs, rounds int) {
 	type job struct {
 		name string
@@ -302,7 +324,12 @@ func c17SeparateInstances(c *fx.Ctx, procs, rounds int) {
 	docC, _, _ := codec.Encode(codec.CBE, ioCorpus(0)[1].events, nil, true)
 	docT, _, _ := codec.Encode(codec.CTE, ioCorpus(0)[1].events, nil, true)
 	mkJobs := func(g int) []job {
-		val := []interface{}{bigs, fmt.Sprintf("goroutine %d", g), map[string]int{"k": g}, []float64{float64(g), 0.5}, c17T{A: g, B: "b"}}
+		val := []interface{}{bigs, fmt.Sprintf("goroutine %d", g), map[string]int{"k": g}, []float64{float64(g), 0.5}, c17T{A: g, B: "b"},
+			// one input per shortcut: escapes written as \[hex], short escapes, times with zones, big floats, bools, bytes, UIDs, URLs
+			fmt.Sprintf("esc %c %c %c \"\\\n\t %c", rune(1+g), rune(0x2028+g%2), rune(0x7f+g), rune(0x10+g)),
+			time.Date(2000+g, time.Month(1+g), 1+g, g, g, g, g*1000, time.FixedZone("", 3600*g)), time.Date(1999, 1, 2, 3, 4, 5, 6, time.UTC),
+			new(big.Float).SetPrec(100).SetFloat64(float64(g) + 0.75), []bool{g%2 == 0, true, false, g%3 == 0, true, true, false, false, true}, []byte{byte(g), 1, 2},
+			types.UID{byte(g), 2, 3, 4, 5, 6, 7, 8, 9, 10, 11, 12, 13, 14, 15, 16}, mustParseURL(fmt.Sprintf("http://h/%d", g)), float32(g) + 0.5, -float64(g) - 1e-9, uint64(1<<63) + uint64(g), []uint16{uint16(g), 65535}}
 		mc, mt := ce.NewCBEMarshaler(configuration.New()), ce.NewCTEMarshaler(configuration.New())
 		uc, ut := ce.NewCBEUnmarshaler(configuration.New()), ce.NewCTEUnmarshaler(configuration.New())
 		return []job{
@@ -315,6 +342,23 @@ func c17SeparateInstances(c *fx.Ctx, procs, rounds int) {
 				_, err := ev.TryDriveAll(rules.NewRules(rec, configuration.New()), ioCorpus(0)[1].events)
 				return obs(ev.Join(rec.Events), err)
 			}},
+		}
+	}
+	// the marshal corpus of C04/C05 through separate marshalers: goroutine g starts at a different offset, so at
+	// any moment different goroutines are inside different encoder paths
+	var corpus []gen.GV
+	for i, g := range gen.GoValues(1) {
+		if i%3 == 0 && !containsMap(reflect.TypeOf(g.V)) {
+			corpus = append(corpus, g)
+		}
+	}
+	corpusAlone := make([][2]string, len(corpus))
+	{
+		mc, mt := ce.NewCBEMarshaler(configuration.New()), ce.NewCTEMarshaler(configuration.New())
+		for i, g := range corpus {
+			d, err := safeMarshal(mc, g.V)
+			t, err2 := safeMarshal(mt, g.V)
+			corpusAlone[i] = [2]string{obs(string(d), err), obs(string(t), err2)}
 		}
 	}
 	const G = 8
@@ -331,6 +375,20 @@ func c17SeparateInstances(c *fx.Ctx, procs, rounds int) {
 		go func(g int) {
 			defer wg.Done()
 			jobs := mkJobs(g)
+			if rounds >= 2 {
+				mc, mt := ce.NewCBEMarshaler(configuration.New()), ce.NewCTEMarshaler(configuration.New())
+				for k := range corpus {
+					i := (k + g*len(corpus)/G) % len(corpus)
+					d, err := safeMarshal(mc, corpus[i].V)
+					t, err2 := safeMarshal(mt, corpus[i].V)
+					if got := [2]string{obs(string(d), err), obs(string(t), err2)}; got != corpusAlone[i] {
+						mu.Lock()
+						c.Violation("separate-instances:corpus-marshal:result-differs", fmt.Sprintf("goroutine %d marshaling %s with its own marshalers gets %s / %s, alone %s / %s (GOMAXPROCS=%d)", g, corpus[i].Name, clipS(got[0]), clipS(got[1]), clipS(corpusAlone[i][0]), clipS(corpusAlone[i][1]), procs), c17Witness{Harness: "separate-instances:corpus-marshal"})
+						mu.Unlock()
+						return
+					}
+				}
+			}
 			for r := 0; r < rounds; r++ {
 				for ji, j := range jobs {
 					if got := j.run(); got != alone[g][ji] {
